@@ -60,8 +60,8 @@ isal_md5_ctx_mgr_submit(ISAL_MD5_HASH_CTX_MGR *mgr, ISAL_MD5_HASH_CTX *ctx_in,
                 return ISAL_CRYPTO_ERR_NULL_MGR;
         if (ctx_in == NULL || ctx_out == NULL)
                 return ISAL_CRYPTO_ERR_NULL_CTX;
-        /* OK to have NULL source buffer when flags is ISAL_HASH_FIRST or ISAL_HASH_LAST */
-        if (buffer == NULL && (flags == ISAL_HASH_UPDATE || flags == ISAL_HASH_ENTIRE))
+        /* OK to have NULL source buffer when there is no data to hash (len == 0) */
+        if (buffer == NULL && len != 0)
                 return ISAL_CRYPTO_ERR_NULL_SRC;
 #endif
         *ctx_out = _md5_ctx_mgr_submit(mgr, ctx_in, buffer, len, flags);
